@@ -29,7 +29,7 @@ ENTRY = {
 }
 
 
-def make_probe_class():
+def make_probe_class(subscriptable=True):
     log = []
 
     class Probe(object):
@@ -41,6 +41,8 @@ def make_probe_class():
         def __getitem__(self, key):
             log.append(('item', key))
             return 'I:%s' % (key,)
+    if not subscriptable:
+        del Probe.__getitem__
     for n in NAMES:
         def m(self, *a, _n=n, **k):
             return 'M:' + _n
@@ -158,6 +160,24 @@ def run(rep, tier, seed, keep=False):
                 except Exception as e:  # noqa
                     got = ('deny', list(log), type(e).__name__)
             rep.evaluations += 1
+            if form == 'index' and text is not None:
+                # the same on an object whose class cannot be indexed: indexing must not turn into anything else
+                Probe2, log2 = make_probe_class(subscriptable=False)
+                obj2 = Probe2()
+                yaqlization.yaqlize(obj2, yaqlize_attributes=bool(s['attrs']), yaqlize_methods=bool(s['methods']), yaqlize_indexer=bool(s['indexer']),
+                                    whitelist=[ENTRY[str(e)]() for e in sorted(s['wl'])] or None, blacklist=[ENTRY[str(e)]() for e in sorted(s['bl'])] or None,
+                                    attribute_remapping=remap, blacklist_remapped_attributes=bool(s['blr']))
+                del log2[:]
+                c2 = ctx.create_child_context()
+                c2['o'] = obj2
+                try:
+                    stmts[text].evaluate(context=c2)
+                    got2 = 'ok'
+                except Exception:  # noqa
+                    got2 = 'deny'
+                if got2 == 'ok' or log2:
+                    rep.violation('C07/policy/unsubscriptable-object-indexed', '%s on a yaqlized object whose class has no __getitem__: %s, reached %r (settings %r)' % (
+                        text, got2, list(log2), {k: (sorted(str(x) for x in v) if isinstance(v, frozenset) else bool(v)) for k, v in s.items()}), {'form': form, 'name': name})
             want = str(dec['kind'])
             case = {'settings': {k: (sorted(str(x) for x in v) if isinstance(v, frozenset) else bool(v)) for k, v in s.items()}, 'form': form, 'name': name}
             reached = [x for x in (got[1] or [])]
